@@ -149,5 +149,5 @@ PROPERTIES = {
             "Structural necessary conditions of idempotence, one per mechanism the property is anchored in: (a) the blank the line-comment normaliser inserts is accepted by its own "
             "blank test; (b) `unchanged` is exact equality of (decoded input, formatter output) in files mode and check mode; (c) every pass that can replace token text is registered "
             "before the pass that measures it; (d) after the multi-line strings were rewritten the cached lengths are re-read, every rewrite is reported, line-start blanks are removed "
-            "after the last wrapping; (e) the surviving layout fact (blank-line group) is stored as clamp(_,1,2). The fixpoint relation between two runs is NOT decided.", []),
+            "after the last wrapping; (e) the surviving layout fact (blank-line group) is stored as clamp(_,1,2). The fixpoint relation between two runs is NOT decided. Added in round 7: (g) the three places that measure token text for the width comparison use the same measure.", []),
 }
